@@ -101,6 +101,18 @@ def gen_cases(tier, rng):
                                         ["advto", 9 * U]], v, "periodic-raise"))
                     out.append((world, [["do", ["sched", ["abs", U], 0, [["periodic", 2 * U, tab, 0]]]],
                                         ["advto", 12 * U], ["do", ["stop"]], ["advby", 6 * U]], v, "periodic-raise"))
+    # two periodic jobs on ONE CatchScheduler: A raises at its k-th call (swallowed or not), B never raises and is
+    # scheduled before A, after A, or after A has failed.  B's ticks are judged against B running alone.
+    for world in vt.WORLDS:
+        for k in (0, 1, 2):
+            for acc in (True, False):
+                tabA = [[[i, ["next", [], i + 1]] for i in range(k)], ["raise", [20 + k], 1]]
+                tabB = [[[i, ["next", [], i + 1]] for i in range(30)], ["next", [], 0]]
+                v = {"-1": False, "0": acc, "1": acc, "2": False}
+                A, B = ["do", ["periodic", 2 * U, tabA, 0]], ["do", ["periodic", 3 * U, tabB, 0]]
+                for h in ([A, B, ["advto", 20 * U]], [B, A, ["advto", 20 * U]],
+                          [A, ["advto", 7 * U], B, ["advto", 25 * U]]):
+                    out.append((world, h, v, "two-periodic"))
     # cancellation through the disposables RETURNED by CatchScheduler.schedule / schedule_relative /
     # schedule_absolute (top level) and by the recursive wrapper handed to an action (nested)
     L = -7
@@ -149,6 +161,26 @@ def raises_somewhere(h):
             return t_raises(c[2])
         return c[0] == "sched" and any(c_r(x) for x in c[3])
     return any(t[0] == "do" and c_r(t[1]) for t in h)
+
+
+def two_periodic_oracle(world, h, v, trace):
+    """the periodic job whose action never raises ticks exactly as it does without the other job (actions that do
+    not raise behave as on the wrapped scheduler; another job's exception is not theirs) -- unless the other
+    job's exception propagated out of the run loop (verdict not True), which ends the run for everybody"""
+    def is_b(c):
+        return c[0] == "do" and c[1][0] == "periodic" and c[1][2][1][0] == "next"
+    pid_b = [i for i, c in enumerate([c for c in h if c[0] == "do" and c[1][0] == "periodic"]) if is_b(c)][0]
+    alone = [c for c in h if not (c[0] == "do" and c[1][0] == "periodic" and not is_b(c))]
+    _, tr2 = vt.run_impl(world, 0, alone, catch=v, timeout=10.0)
+    got = [(e[2], e[3]) for e in trace if e[0] == "tick" and e[1] == pid_b]
+    exp = [(e[2], e[3]) for e in tr2 if e[0] == "tick" and e[1] == 0]
+    propagated = any(e[0] == "handler" and not e[2] for e in trace)
+    if propagated:
+        ok = got == exp[:len(got)]
+    else:
+        ok = got == exp
+    return [] if ok else [("periodic-job-that-never-raised-stopped-or-drifted",
+                           f"ticks (state, time) of the non-raising job {got[:8]}... alone {exp[:8]}...")]
 
 
 def run(chk):
@@ -205,6 +237,9 @@ def run(chk):
             if obs2 != obs:
                 bad.append(("non-raising-history-differs-from-wrapped-scheduler",
                             f"with CatchScheduler {obs[:12]} ... directly {obs2[:12]}"))
+        if origin == "two-periodic":
+            bad += two_periodic_oracle(world, h, v, trace)
+            chk.cov["evaluations"] += 1
         size = vt.hsize(h) * 100 + len(json.dumps(h))
         for sig, detail in bad:
             failures.append((size, sig, world, h, v, obs, detail))
@@ -278,6 +313,8 @@ def replay(chk, path):
         if obs2 != obs:
             bad.append(("non-raising-history-differs-from-wrapped-scheduler",
                         f"with CatchScheduler {obs[:12]} ... directly {obs2[:12]}"))
+    if str(d.get("signature", "")).startswith("periodic-job-that-never-raised"):
+        bad += two_periodic_oracle(d["world"], d["history"], d["handler_verdicts"], trace)
     print("history", json.dumps(d["history"]))
     print("verdicts", d["handler_verdicts"])
     print("observed", obs)
